@@ -216,3 +216,132 @@ theorem withdraw_side_bound {side Pu : Nat} {claim q ws : Dec} (hc : 0 < claim.i
   linarith
 
 end Sif.Clp
+
+namespace Sif.Clp
+open Sif Sif.Dec
+
+/-- `CalculateWithdrawal` (removal by basis points, 0 < w ≤ 10000, provider units ≤ pool units):
+    with `burned = lpUnits − lpUnitsLeft` the units the removal burns, both payouts are at most
+    depth·burned/P up to one base unit plus 10^-15 relative -/
+theorem withdraw_le_prorata {Pu nD eD lu w n e left : Nat} (hw0 : 0 < w) (hw : w ≤ 10000) (hlu : lu ≤ Pu)
+    (h : calculateWithdrawal Pu nD eD lu w = .ok (n, e, left)) :
+    left ≤ lu ∧
+    (n : ℚ) ≤ (nD : ℚ) * ((lu - left : Nat) : ℚ) / Pu * (1 + 1 / 10 ^ 15) + 1 ∧
+    (e : ℚ) ≤ (eD : ℚ) * ((lu - left : Nat) : ℚ) / Pu * (1 + 1 / 10 ^ 15) + 1 := by
+  unfold calculateWithdrawal at h
+  obtain ⟨nF, hn, h⟩ := bind_ok h
+  obtain ⟨eF, he, h⟩ := bind_ok h
+  obtain ⟨luF, hl, h⟩ := bind_ok h
+  obtain ⟨wF, hwf, h⟩ := bind_ok h
+  obtain ⟨den, hden, h⟩ := bind_ok h
+  obtain ⟨claim, hclaim, h⟩ := bind_ok h
+  obtain ⟨q, hq, h⟩ := bind_ok h
+  obtain ⟨wE, hwE, h⟩ := bind_ok h
+  obtain ⟨q', hq', h⟩ := bind_ok h
+  obtain ⟨wN, hwN, h⟩ := bind_ok h
+  obtain ⟨lf, hlf, h⟩ := bind_ok h
+  obtain ⟨n', hn', h⟩ := bind_ok h
+  obtain ⟨e', he', h⟩ := bind_ok h
+  obtain ⟨l', hl', h⟩ := bind_ok h
+  have : n' = n ∧ e' = e ∧ l' = left := by cases h; exact ⟨rfl, rfl, rfl⟩
+  obtain ⟨rfl, rfl, rfl⟩ := this
+  have en : nF = ⟨((nD * P : Nat) : Int)⟩ := by have := decOfNatStr_i hn; cases nF; simp_all
+  have ee : eF = ⟨((eD * P : Nat) : Int)⟩ := by have := decOfNatStr_i he; cases eF; simp_all
+  have el : luF = ⟨((lu * P : Nat) : Int)⟩ := by have := decOfNatStr_i hl; cases luF; simp_all
+  have ew : wF = ⟨((w * P : Nat) : Int)⟩ := by have := decOfNatStr_i hwf; cases wF; simp_all
+  subst en ee el ew
+  have hp : (0 : ℚ) < (P : ℚ) := by exact_mod_cast P_pos
+  have hwq : (0 : ℚ) < (w : ℚ) := by exact_mod_cast hw0
+  have hwq' : (w : ℚ) ≤ 10000 := by exact_mod_cast hw
+  -- denominator = 10000 / w ≥ 1 (as a raw integer ≥ 10^18)
+  have hb : (0 : Int) < ((w * P : Nat) : Int) := by have := Nat.mul_pos hw0 P_pos; exact_mod_cast this
+  have ha : 0 ≤ (Dec.ofNat 10000).i := Int.natCast_nonneg _
+  obtain ⟨d0, d1, d2⟩ := quo_err (b := ⟨((w * P : Nat) : Int)⟩) ha hb hden
+  have hxd : ((Dec.ofNat 10000).i : ℚ) * P / (((w * P : Nat) : Int) : ℚ) = 10000 * (P : ℚ) / w := by
+    show (((10000 * P : Nat) : Int) : ℚ) * P / _ = _
+    push_cast; field_simp
+  rw [hxd] at d2
+  have hP2 : (2 : ℚ) ≤ P := by
+    have : 2 ≤ P := by rw [P_val]; decide
+    exact_mod_cast this
+  have hinvP : (1 : ℚ) / P ≤ 1 / 2 := by rw [div_le_div_iff₀ hp (by norm_num)]; linarith
+  have hxge : (P : ℚ) ≤ 10000 * (P : ℚ) / w := by rw [le_div_iff₀ hwq]; nlinarith
+  have hP3 : (3 : ℚ) ≤ P := by
+    have : 3 ≤ P := by rw [P_val]; decide
+    exact_mod_cast this
+  have hinvP3 : (1 : ℚ) / P ≤ 1 / 3 := by rw [div_le_div_iff₀ hp (by norm_num)]; linarith
+  have hdenq : (P : ℚ) - 1 < (den.i : ℚ) := by linarith
+  have hdenI : (P : Int) ≤ den.i := by
+    have : ((P : Int) : ℚ) - 1 < (den.i : ℚ) := by exact_mod_cast hdenq
+    have h2 : (P : Int) - 1 < den.i := by exact_mod_cast this
+    omega
+  have hdenpos : 0 < den.i := lt_of_lt_of_le (by have := P_pos; exact_mod_cast this) hdenI
+  -- claim = lu / denominator ≤ lu
+  have hla : (0 : Int) ≤ ((lu * P : Nat) : Int) := Int.natCast_nonneg _
+  obtain ⟨c0, c1, _⟩ := quo_err (a := ⟨((lu * P : Nat) : Int)⟩) hla hdenpos hclaim
+  have hclaim_le : claim.i ≤ ((lu * P : Nat) : Int) := by
+    have hdq : (P : ℚ) ≤ (den.i : ℚ) := by exact_mod_cast hdenI
+    have hnum : ((((lu * P : Nat) : Int) : ℚ)) * P / (den.i : ℚ) ≤ (lu : ℚ) * P := by
+      rw [div_le_iff₀ (by linarith)]
+      push_cast
+      have : (0 : ℚ) ≤ (lu : ℚ) * P := by positivity
+      nlinarith
+    have : (claim.i : ℚ) < (((lu * P : Nat) : Int) : ℚ) + 1 := by push_cast; linarith
+    have h2 : claim.i < ((lu * P : Nat) : Int) + 1 := by exact_mod_cast this
+    omega
+  -- what stays with the provider
+  have hlf_i : lf.i = ((lu * P : Nat) : Int) - claim.i := by
+    unfold Dec.sub at hlf; exact chk_ok hlf
+  have hlf0 : 0 ≤ lf.i := by omega
+  obtain ⟨t0, t1, t2⟩ := truncateInt_err hlf0
+  unfold truncToUint at hn' he' hl'
+  obtain ⟨cl, _⟩ := Uint.ofInt_ok hl'
+  have hleftq : (l' : ℚ) = (lf.truncateInt : ℚ) := by exact_mod_cast congrArg (fun z : Int => (z : ℚ)) cl
+  have hleft_le : (l' : ℚ) ≤ (lu : ℚ) - (claim.i : ℚ) / P := by
+    rw [hleftq]
+    have : (lf.i : ℚ) / P = (lu : ℚ) - (claim.i : ℚ) / P := by
+      rw [hlf_i]; push_cast; field_simp
+    linarith
+  have hleft_nat : l' ≤ lu := by
+    have : (l' : ℚ) ≤ (lu : ℚ) := by
+      have : (0 : ℚ) ≤ (claim.i : ℚ) / P := div_nonneg (by exact_mod_cast c0) hp.le
+      linarith
+    exact_mod_cast this
+  have hburned : (claim.i : ℚ) / P ≤ ((lu - l' : Nat) : ℚ) := by
+    rw [Nat.cast_sub hleft_nat]; linarith
+  refine ⟨hleft_nat, ?_, ?_⟩
+  all_goals
+    by_cases hc0 : claim.i = 0
+    · -- nothing claimed: the quotient P/0 would have panicked
+      exfalso
+      unfold Dec.quo at hq
+      simp [hc0] at hq
+    have hcpos : 0 < claim.i := by omega
+    have hcP : claim.i ≤ ((Pu * P : Nat) : Int) := by
+      have : ((lu * P : Nat) : Int) ≤ ((Pu * P : Nat) : Int) := by
+        have := Nat.mul_le_mul_right P hlu; exact_mod_cast this
+      omega
+  · obtain ⟨s0, s1⟩ := withdraw_side_bound hcpos hcP hq' hwN
+    obtain ⟨r0, r1, _⟩ := truncateInt_err s0
+    obtain ⟨cn, _⟩ := Uint.ofInt_ok hn'
+    have hnq : (n' : ℚ) = (wN.truncateInt : ℚ) := by exact_mod_cast congrArg (fun z : Int => (z : ℚ)) cn
+    rw [hnq]
+    have hmono : (nD : ℚ) * ((claim.i : ℚ) / P) / Pu * (1 + 1 / 10 ^ 15)
+        ≤ (nD : ℚ) * ((lu - l' : Nat) : ℚ) / Pu * (1 + 1 / 10 ^ 15) := by
+      apply mul_le_mul_of_nonneg_right _ (by positivity)
+      apply div_le_div_of_nonneg_right _ (Nat.cast_nonneg _)
+      exact mul_le_mul_of_nonneg_left hburned (Nat.cast_nonneg _)
+    linarith
+  · obtain ⟨s0, s1⟩ := withdraw_side_bound hcpos hcP hq hwE
+    obtain ⟨r0, r1, _⟩ := truncateInt_err s0
+    obtain ⟨ce, _⟩ := Uint.ofInt_ok he'
+    have heq : (e' : ℚ) = (wE.truncateInt : ℚ) := by exact_mod_cast congrArg (fun z : Int => (z : ℚ)) ce
+    rw [heq]
+    have hmono : (eD : ℚ) * ((claim.i : ℚ) / P) / Pu * (1 + 1 / 10 ^ 15)
+        ≤ (eD : ℚ) * ((lu - l' : Nat) : ℚ) / Pu * (1 + 1 / 10 ^ 15) := by
+      apply mul_le_mul_of_nonneg_right _ (by positivity)
+      apply div_le_div_of_nonneg_right _ (Nat.cast_nonneg _)
+      exact mul_le_mul_of_nonneg_left hburned (Nat.cast_nonneg _)
+    linarith
+
+end Sif.Clp
